@@ -129,7 +129,7 @@ fn check_code(code: &u16, case: &mut Case) -> Result<(), Fail> {
 type MatchIn = (u16, u8, u16, u8); // shape 2 = NULL variant carrying the code; origin 2/3 = owned copy of constructed/parsed
 
 fn match_codes() -> Vec<u16> {
-    let mut v: Vec<u16> = iana().iter().map(|e| e.0).filter(|c| *c != 41).collect();
+    let mut v: Vec<u16> = iana().iter().map(|e| e.0).collect();
     // 251..=255 are question-only codes: a *record* of such a type is outside the statement
     v.extend([19, 99, 250, 256, 4096, 32768, 65280, 65534, 65535]);
     v
@@ -151,9 +151,37 @@ fn enum_match(_t: Tier, shard: usize, n: usize, f: &mut dyn FnMut(MatchIn) -> bo
     }
 }
 
+/// a typed OPT record (constructed): its class member is what class matching is about, whatever its UDP size
+fn check_opt_record(class: u16, case: &mut Case) -> Result<(), Fail> {
+    use simple_dns::rdata::{OPTCode, RData, OPT};
+    case.nontrivial = true;
+    for udp in [0u16, 1, 3, 4, 254, 255, 512, 1232, 65535] {
+        let rr = simple_dns::ResourceRecord::new(
+            simple_dns::Name::new_unchecked(""),
+            class_of(class).unwrap(),
+            0,
+            RData::OPT(OPT { opt_codes: vec![OPTCode { code: 10, data: std::borrow::Cow::Borrowed(&[1, 2][..]) }], udp_packet_size: udp, version: 0 }),
+        );
+        ensure!(rr.rdata.type_code() == TYPE::OPT, "c18:type-code", "an OPT record reports {:?}", rr.rdata.type_code());
+        for qc in [1u16, 2, 3, 4, 254, 255] {
+            let want = qc == 255 || qc == class;
+            let got = lib("match_qclass", || rr.match_qclass(qclass_of(qc).unwrap()))?;
+            ensure!(got == want, "c18:match-qclass", "OPT record of class {} (udp size {}) vs question class {}: match_qclass = {}", class, udp, qc, got);
+        }
+        for (q, want) in [(QTYPE::ANY, true), (QTYPE::TYPE(TYPE::OPT), true), (QTYPE::TYPE(TYPE::A), false), (QTYPE::MAILB, false)] {
+            let got = lib("match_qtype", || rr.match_qtype(q))?;
+            ensure!(got == want, "c18:match-qtype", "OPT record vs question {:?}: match_qtype = {}", q, got);
+        }
+    }
+    Ok(())
+}
+
 fn check_match(input: &MatchIn, case: &mut Case) -> Result<(), Fail> {
     let (code, shape, class, origin) = *input;
     case.nontrivial = true;
+    if code == 41 {
+        return if shape == 0 && origin == 0 { check_opt_record(class, case) } else { Ok(()) };
+    }
     let rdata = if shape == 1 {
         ARData::Empty { code }
     } else if shape == 2 {
